@@ -22,7 +22,7 @@ import (
 var Check = &mc.Check{
 	ID:    "C14",
 	Level: "model_checking",
-	Rule: "bodies: every length 0..6 x {Content-Length, every composition into <=3 chunks, with/without trailer} and boundary lengths {4095..4097,8191..8193,16385,65537} x {CL, one chunk, 4096-byte chunks, three chunks, +trailer}; " +
+	Rule: "bodies: every length 0..6 (thorough 0..9, compositions into <=4 chunks, every 1-cut for all of them) x {Content-Length, every composition into <=3 chunks, with/without trailer} and boundary lengths {4095..4097,8191..8193,16385,65537} x {CL, one chunk, 4096-byte chunks, three chunks, +trailer}; " +
 		"MaxRequestBodySize {default, len-1, len}; segmentation {whole, probe in a later read, byte-wise, every 1-cut (small)}; consumption: read sizes {1,2,3,4096,16384}, stop after EVERY k (small) / k in {0,1,mid-chunk,chunk boundary +-1,8191..8193,len-1,len} (large) or read to EOF plus one more read; then a pipelined probe request; " +
 		"non-trivial = executions where the handler stops before the end of the body or the body is chunked",
 	Run:         run,
@@ -344,13 +344,33 @@ func compositions(n int) [][]int {
 	return out
 }
 
+// compositions of n into exactly 4 positive parts
+func compositions4(n int) [][]int {
+	var out [][]int
+	for a := 1; a < n; a++ {
+		for b := 1; a+b < n; b++ {
+			for c := 1; a+b+c < n; c++ {
+				out = append(out, []int{a, b, c, n - a - b - c})
+			}
+		}
+	}
+	return out
+}
+
 func cases(thorough bool) []Case {
 	var out []Case
 	// small bodies: everything exhaustive
-	for n := 0; n <= 6; n++ {
+	maxSmall := 6
+	if thorough {
+		maxSmall = 9
+	}
+	for n := 0; n <= maxSmall; n++ {
 		var encs [][]int
 		encs = append(encs, nil)
 		encs = append(encs, compositions(n)...)
+		if thorough {
+			encs = append(encs, compositions4(n)...)
+		}
 		for ei, ch := range encs {
 			for _, tr := range []bool{false, true} {
 				if ch == nil && tr {
@@ -372,7 +392,7 @@ func cases(thorough bool) []Case {
 								out = append(out, cs)
 							}
 							// every 1-cut for a subset that keeps the count reasonable: CL and the first two chunkings, default limit
-							if mb == 0 && rs <= 2 && ei <= 2 {
+							if mb == 0 && rs <= 2 && (ei <= 2 || thorough) {
 								st, _, _ := build(base)
 								for p := 1; p < len(st); p++ {
 									cs := base
